@@ -13,7 +13,7 @@ pub fn run(tier: Tier) -> i32 {
     let ctx = Ctx::new("C15", "model_checking", tier);
     ctx.set_rule("E2 with allow_incomplete = true on valid streams: in EVERY node of the Stream state graph (= after every prefix of the input under every chunking) the sink contents and get_output() are a prefix of the complete output, and finish() on a re-executed copy returns Ok(p) with p a prefix of the complete output and |p| >= the bytes produced by the last symbol whose cumulative input consumption (reference per-symbol table) is <= offset-64, for every offset >= header+5. distinct_nontrivial = inputs with a symbol spanning >= 4 input bytes or wrapping the 4096-byte window.");
     ctx.assume("per-symbol consumption table comes from the reference encoder (eager normalisation), bound to the reference decoder and liblzma by `lzmc bind`");
-    let items = corpus::valid_items(ctx.seed, tier == Tier::Thorough);
+    let items = corpus::valid_items(ctx.seed, true);
     struct In {
         label: String,
         bytes: Vec<u8>,
